@@ -48,6 +48,13 @@ def digestPlain (ds : List (String × String)) : String := "\n".intercalate (ds.
 def digestOutput (algs : List String) (hash : String → String) : String :=
   digestPlain ((digestAlgs algs).map fun a => (a, hash a))
 
+/-- Python `d.update(e)` -/
+def dictUpdate {β : Type} (d e : List (String × β)) : List (String × β) := e.foldl (fun d x => dictIns d x.1 x.2) d
+
+/-- `pyhf patchset extract --with-metadata`: the `metadata` entry of the emitted object is the patch's own metadata
+updated with the patch set's (`result['metadata'].update(patchset.metadata)`) -/
+def extractMetadata {β : Type} (patchMeta setMeta : List (String × β)) : List (String × β) := dictUpdate patchMeta setMeta
+
 /-! ## options → library call -/
 
 structure InferOpts where
